@@ -7,7 +7,7 @@
      * realtime.compare_records on this DatabaseAPI (cached / uncached SQL path)
    delete_tables_created_by_splink_from_db, invalidate_cache and debug mode are already operations
    of Cache.v (DeleteTables, InvalidateCache, SetDebug).  Definitions only. *)
-From Coq Require Import List Bool Arith String.
+From Coq Require Import List Bool Arith String Ascii.
 From Splinkv Require Import Model.Cache.
 Import ListNotations.
 Open Scope string_scope.
@@ -17,6 +17,18 @@ Definition RTL := "__splink__compare_records_left".
 Definition RTR := "__splink__compare_records_right".
 Definition RT := "__splink__realtime_compare_records".
 
+(* DuckDB and SQLite resolve table names case-insensitively (ASCII): `People` IS the table `people` *)
+Definition lower_ascii (a : ascii) : ascii :=
+  let n := nat_of_ascii a in if Nat.leb 65 n && Nat.leb n 90 then ascii_of_nat (n + 32) else a.
+Fixpoint lower (s : string) : string :=
+  match s with EmptyString => EmptyString | String a r => String (lower_ascii a) (lower r) end.
+Definition ci_eqb (a b : string) : bool := String.eqb (lower a) (lower b).
+
+(* cache slots that the register_* entry points fill *)
+Inductive slot := SlotCwtf | SlotPredict | SlotTf (c : string).
+Definition slot_name (k : slot) : string :=
+  match k with SlotCwtf => CWTF | SlotPredict => PREDICT | SlotTf c => tfname c end.
+
 Section Catalog.
   Variable K : Type.
   Variable keqb : K -> K -> bool.
@@ -25,19 +37,43 @@ Section Catalog.
   Inductive cop :=
   | COp (o : op)
   | CRegisterTable (name : string) (overwrite : bool) (ver : nat)
+      (* register_table(dataframe, name, overwrite); also Linker(dataframe, ..., input_table_aliases=[name]) *)
+  | CRegisterByName (k : slot) (name : string)
+      (* register_table_input_nodes_concat_with_tf / register_table_predict / register_term_frequency_lookup called
+         with the NAME of a table that already exists: nothing is created, the cache slot now points at that table *)
+  | CHandleByName (name : string)
+      (* register_table("<name>", alias) / register_labels_table("<name>"): a frame for an existing table; no effect *)
   | CDropTable (name : string) (force : bool)
   | CRealtime (cached : bool).
 
   Definition register_leaf (s : state K) (l : lname) (v : prov) : state K :=
     set_db K s (aset K keqb (st_db K s) (PL K l) {| e_prov := v; e_origin := Caller |}).
 
+  (* table_exists_in_database(name): some catalog object has this name up to letter case *)
+  Definition same_name (name : string) (p : pname K) : bool :=
+    match p with PL _ (LPlain n) => ci_eqb n name | _ => false end.
+  Definition name_taken (db : db_t K) (name : string) : bool := existsb (fun kv => same_name name (fst kv)) db.
+
   Definition cstep (s : state K) (c : cop) : state K * list event :=
     match c with
     | COp o => let '(s', _, tr) := run_op K keqb hash s o in (s', tr)
     | CRegisterTable name ow ver =>
+        if name_taken (st_db K s) name then
+          if ow then
+            (* DROP TABLE/VIEW IF EXISTS name (whatever its letter case); then register *)
+            let db' := filter (fun kv => negb (same_name name (fst kv))) (st_db K s) in
+            (register_leaf (set_db K s db') (LPlain name) (PInput name ver), [])
+          else (s, [Refused name])
+        else (register_leaf s (LPlain name) (PInput name ver), [])
+    | CRegisterByName k name =>
         let l := LPlain name in
-        if amem K keqb (st_db K s) (PL K l) && negb ow then (s, [Refused name])
-        else (register_leaf s l (PInput name ver), [])
+        let h := {| h_templ := slot_name k; h_phys := PL K l; h_src := Leaf l; h_cbs := false |} in
+        let s1 := set_cache K s (aset K keqb (st_cache K s) (named K (slot_name k)) h) in
+        (match k with
+         | SlotTf _ => if fx77 (st_fix K s) then evict_cwtf K keqb s1 else s1   (* _drop_stale_df_concat_with_tf *)
+         | _ => s1
+         end, [])
+    | CHandleByName name => (s, [])
     | CDropTable name force =>
         let p := PL K (LPlain name) in
         if force then
@@ -73,6 +109,8 @@ Section Catalog.
     match c with
     | COp o => op_ok_hashed o && negb (match o with ChangeInputInvalidate _ => true | _ => false end)
     | CRegisterTable _ ow _ => negb ow
+    | CRegisterByName _ _ => true
+    | CHandleByName _ => true
     | CDropTable _ force => negb force
     | CRealtime cached => negb cached || fx715 fx      (* the cached-SQL path is safe on the repaired tree only *)
     end.
